@@ -133,3 +133,13 @@ func ClassOfPak(p uint32) int {
 	}
 	return ClassNone
 }
+
+// ClassOfAcceptedPak classifies an address that PakAddressToBus accepts: the windows above
+// are extended by the pak banks $F7-$FF, which every mapper documents as mirrors that
+// collapse onto WRAM (C04: "mirrored FX Pak Pro addresses collapse onto their canonical copy").
+func ClassOfAcceptedPak(p uint32) int {
+	if p >= 0xF50000 {
+		return ClassWRAM
+	}
+	return ClassOfPak(p)
+}
